@@ -2492,8 +2492,10 @@ def c13_genesis_doc(r):
             if (sp, sc) == (dp, dc) or r.chance(1, 4):
                 continue
             cnts.append("%d|%s|%d|%s|%d" % (sp, hx(sc), dp, hx(dc), r.range(1, 50)))
-            for dn in r.shuffle(["uusdc", "uother", "ueure"])[: r.range(1, 3)]:
-                amts.append("%d|%s|%d|%s|%s|%d|%d" % (sp, hx(sc), dp, hx(dc), hx(dn), r.range(1, 10 ** 9), r.range(0, 10 ** 9)))
+            for dn in r.shuffle(["uusdc", "uother", "ueure", "uusd", "uusdcx"])[: r.range(1, 3)]:
+                # among them one-legged rows (only incoming, only outgoing: what a denomination-changing action leaves)
+                i_, o_ = r.choice([(r.range(1, 10 ** 9), r.range(0, 10 ** 9)), (0, r.range(1, 10 ** 9)), (r.range(1, 10 ** 9), 0), (r.range(1, 10 ** 9), r.range(1, 10 ** 9))])
+                amts.append("%d|%s|%d|%s|%s|%d|%d" % (sp, hx(sc), dp, hx(dc), hx(dn), i_, o_))
     return "pp=[];pcc=[];pa=[];params=0;amts=[%s];cnts=[%s]" % (",".join(amts), ",".join(cnts))
 
 
@@ -2527,16 +2529,17 @@ def c13_build(r, n_hist, limits, tier, genesis=False):
         for q in ("DispatchedCountsBySrc", "DispatchedCountsByDst", "DispatchedAmountsBySrc", "DispatchedAmountsByDst"):
             qs.append((q, hx(pn)))
     for (q, arg) in qs:
-        # reference listing (no pagination: default limit 100, total counted)
+        # reference listing: one page large enough for everything, total counted
         ref_i = len(lines)
-        lines.append("query %s %s nopage" % (q, arg))
+        lines.append("query %s %s - 0 100000 1 0" % (q, arg))
         ref = kv(p.ask(lines[-1]))
+        n_ref = len(split_items(ref.get("out", "[]")))
         for lim in limits:
             for rev in (0, 1):
                 for ct in (0, 1):
                     # by key
                     idxs, key, seen = [], "-", set()
-                    for _ in range(64):
+                    for _ in range(n_ref // max(1, lim) + 8):
                         l = "query %s %s %s 0 %d %d %d" % (q, arg, key, lim, ct, rev)
                         idxs.append(len(lines))
                         lines.append(l)
@@ -2549,7 +2552,7 @@ def c13_build(r, n_hist, limits, tier, genesis=False):
                     walks.append(("key", q, arg, lim, rev, ct, ref_i, idxs))
                 # by offset
                 idxs, off = [], 0
-                for _ in range(64):
+                for _ in range(n_ref // max(1, lim) + 8):
                     l = "query %s %s - %d %d 1 %d" % (q, arg, off, lim, rev)
                     idxs.append(len(lines))
                     lines.append(l)
@@ -2570,6 +2573,12 @@ def c13_build(r, n_hist, limits, tier, genesis=False):
                 lines.append("query DispatchedCounts %s %s %s %s" % (hx(sp), hx(sc), hx(dp), hx(dc)))
                 for dn in DENOMS:
                     lines.append("query DispatchedAmounts %s %s %s %s %s" % (hx(sp), hx(sc), hx(dp), hx(dc), hx(dn)))
+    # a lookup names one entry exactly: neither a beginning of a recorded denomination or identifier, nor an extension of one
+    for (sc, dp, dc) in [("channel-0", "PROTOCOL_CCTP", "0"), ("channel-1", "PROTOCOL_HYPERLANE", "1"), ("channel-0", "PROTOCOL_INTERNAL", "noble"), ("channel-", "PROTOCOL_CCTP", "0"),
+                         ("channel-0", "PROTOCOL_HYPERLANE", "10"), ("channel-0", "PROTOCOL_HYPERLANE", "100"), ("channel-0", "PROTOCOL_INTERNAL", "nob"), ("channel-00", "PROTOCOL_CCTP", "0")]:
+        for dn in ("uusdc", "uus", "uusd", "u", "uusdcx", "uusdc ", "UUSDC", "uother", "uothe", "ueure", "ueur"):
+            lines.append("query DispatchedAmounts %s %s %s %s %s" % (hx("PROTOCOL_IBC"), hx(sc), hx(dp), hx(dc), hx(dn)))
+        lines.append("query DispatchedCounts %s %s %s %s" % (hx("PROTOCOL_IBC"), hx(sc), hx(dp), hx(dc)))
     lines.append("export")
     p.close()
     return lines, walks
